@@ -183,6 +183,10 @@ func execC02(seg []Ev) []Ev {
 	// one parser per segment: single-event segments observe a fresh parser (every observation reproducible in isolation),
 	// multi-event segments a long-lived one that must keep judging every input by the grammar alone
 	p := parsers.NewExpressionParser()
+	kp := &keeper{}
+	progText := func(q *parsers.ExpressionParser) string {
+		return fmt.Sprint(rpnJSON(q.ResultTokens()), q.VariableNames(), tokRender(q.OriginalTokens()))
+	}
 	for _, in := range seg {
 		entry := toStr(in["entry"])
 		var texts []string
@@ -221,6 +225,8 @@ func execC02(seg []Ev) []Ev {
 		parsedText := ""
 		oc, det := guarded(func() {
 			if entry == "tokens" {
+				given := lex
+				kp.keep("token list that was given to ParseTokens", func() string { return tokRender(given) })
 				err = p.ParseTokens(lex)
 			} else if entry == "expr" {
 				// the text the parser itself reports for what it holds, parsed again by the same parser
@@ -231,6 +237,9 @@ func execC02(seg []Ev) []Ev {
 				for i, t := range lex {
 					if i > 0 {
 						sb.WriteString(" ")
+						if entry == "stringc" && i%2 == 1 {
+							sb.WriteString("/* c " + fmt.Sprint(i) + " */ ") // comments between the tokens
+						}
 					}
 					if t.Type() == tokenizers.Quoted {
 						sb.WriteString("'" + t.Value() + "'")
@@ -273,7 +282,12 @@ func execC02(seg []Ev) []Ev {
 		default:
 			e["outcome"], e["code"], e["rpn"] = "accepted", "", rpnJSON(p.ResultTokens())
 		}
+		kp.check(e)
 		out = append(out, e)
+	}
+	if len(out) > 0 {
+		q := p
+		hold("compiled program, names and tokens of the previous parser", func() string { return progText(q) })
 	}
 	return out
 }
@@ -323,6 +337,9 @@ func genC02(g *Gen) {
 		if len(cur) > 0 {
 			run(fmt.Sprintf("exhaustive<=%d full vocabulary (ParseTokens)", ln2), "tokens", cur)
 			run(fmt.Sprintf("exhaustive<=%d full vocabulary (ParseString)", ln2), "string", cur)
+			if len(cur) >= 2 {
+				run(fmt.Sprintf("exhaustive<=%d full vocabulary (ParseString with comments)", ln2), "stringc", cur)
+			}
 		}
 		if len(cur) == ln2 {
 			return
@@ -456,6 +473,9 @@ func genC02(g *Gen) {
 		entry := "tokens"
 		if i%3 == 0 {
 			entry = "string"
+		}
+		if i%9 == 0 {
+			entry = "stringc"
 		}
 		run("mutated valid expressions", entry, ts)
 	}
